@@ -78,6 +78,61 @@ def filter_binding(chk, facts, rule, exes):
                        % (show(a), show(a), ', '.join(show(v) for v in cpuvars) or '?'))
 
 
+def selection_rule(chk, facts, rule, unit, fn):
+    """Every update of state that outlives the measuring function is made only
+    for records that the copy would transfer: under FilterOK(cpu) and the
+    segment selection (directly, or through a flag computed from both)."""
+    f = facts.func(unit, fn)
+    selvars = {'ValidSegment', 'ValidSegs'}
+
+    def is_filter(e):
+        return isinstance(e, (list, tuple)) and len(e) > 1 and e[0] == 'call' and callee_name(e) == 'FilterOK'
+
+    def defs_of(v):
+        out = []
+        for b, i, ln, m in f.nodes():
+            if is_assign(m) and strip(m[2]) == v:
+                out.append(m[3])
+            elif m[0] in ('decl', 'sdecl') and v[0] == 'l' and m[1] == v[1] and m[2] is not None:
+                out.append(m[2])
+        return out
+    # locals computed from both parts of the selection
+    both, filt, seg = set(), set(), set()
+    for n_, t in f.locals.items():
+        v = ('l', n_)
+        ds = defs_of(v)
+        if not ds:
+            continue
+        hf = all(mentions(d, is_filter) for d in ds)
+        hs = all(mentions(d, lambda x: var_is(x, selvars, GLOBKINDS + ('l', 'ls'))) for d in ds)
+        if hf:
+            filt.add(v)
+        if hs:
+            seg.add(v)
+
+    def filt_atom(a):
+        return (a[0] == 'nz' and (is_filter(a[1]) or a[1] in filt))
+
+    def seg_atom(a):
+        if a[0] == 'nz' and (a[1] in seg or mentions(a[1], lambda x: var_is(x, selvars, GLOBKINDS + ('l', 'ls')))):
+            return True
+        return a[0] == 'cmp' and a[1] == '==' and (mentions(a[2], lambda x: var_is(x, selvars, GLOBKINDS + ('l', 'ls'))) or mentions(a[3], lambda x: var_is(x, selvars, GLOBKINDS + ('l', 'ls'))))
+    n = 0
+    P = facts.program(unit[:-2])
+    for (k, how, ln, node, b, i) in P.writes(f):
+        if how not in ('=', 'op', 'elem') or k.split(':')[-1] in selvars:
+            continue
+        n += 1
+        ok1, w1 = f.guarded(b, i, lambda l: edge_has_atom(l, filt_atom))
+        ok2, w2 = f.guarded(b, i, lambda l: edge_has_atom(l, seg_atom))
+        ok = ok1 and ok2
+        chk.ob(rule, '%s:%s:%s' % (unit, fn, k.split(':')[-1]), ok, f.loc(ln),
+               'updated only for selected records' if ok else
+               '%s is updated for records that the %s selection excludes (path %s): the image is sized or placed by '
+               'records that are not transferred' % (k.split(':')[-1], 'CPU filter' if not ok1 else 'segment', ' '.join((w1 or w2)[-5:])))
+    return n
+
+
 def run(chk, facts, info):
     P = facts.program('p2bin')
     chk.rule('C05-R1', 'the argument of FilterOK() is the variable bound to ReadRecordHeader()\'s CPU out-parameter '
@@ -254,5 +309,10 @@ def run(chk, facts, info):
     n7 = 0
     for fn in ('ProcessFile', 'MeasureFile', 'OpenTarget'):
         n7 += units.check_function(chk, 'C05-R7', facts.func('p2bin.c', fn), UNITS_P2BIN, UNIT_EXC, UNIT_FUNCS)
+    chk.rule('C05-R8', 'p2bin.c MeasureFile(): the measured start/stop address and the largest granularity are updated '
+             'only under FilterOK(cpu) and the segment selection, i.e. for exactly the records ProcessFile() copies',
+             min_instances=3)
+    if selection_rule(chk, facts, 'C05-R8', 'p2bin.c', 'MeasureFile') < 3:
+        raise AnalysisBroken('MeasureFile no longer updates start, stop and granularity')
     chk.note('Decided: filter binding, divisors, pre-fill order, overlap-warning control dependence, lane divisor '
              'constants, measured inputs of the pre-fill. Not decided: window, lane and address arithmetic per byte.')
